@@ -36,7 +36,7 @@ impl Store {
     // proved in unit store (same pre- and postcondition predicates)
     #[verifier::external_body]
     pub fn top_ixs(&self) -> (r: Vec<usize>)
-        requires self.coherent(),
+        requires self.coherent(), self.limit <= 0x7fff_ffff_ffff_ffff,
         ensures r@ == spec_top(self.records@, self.limit), top_post(self.records@.len() as int, self.limit as int, r@),
     { unimplemented!() }
 }
